@@ -157,7 +157,7 @@ func cmdCheck(args []string) int {
 			retry = append(retry, o)
 		}
 	}
-	if len(retry) > 0 && len(retry) <= 40 && *tier == "quick" {
+	if len(retry) > 0 && len(retry) <= 40 && *tier == "quick" && os.Getenv("EVYVC_FAST") == "" {
 		discharge(retry, work, "retry", 5)
 	}
 	aggs := aggregate(all)
